@@ -1,4 +1,227 @@
 package main
 
-// raceInstrument emits memory-access events for the happens-before detector (C16).
-func (fc *fileCtx) raceInstrument() {}
+import (
+	"fmt"
+	"go/ast"
+	"go/token"
+	"go/types"
+)
+
+// raceInstrument emits memory-access events for the happens-before detector (C16), as pure
+// insertions around expressions so that evaluation order and short-circuiting are unchanged:
+//
+//	x.f            ->  (*zzverifsim.R(&x.f, pos))         x: pointer to a struct declared in package cache
+//	x.f = v        ->  (*zzverifsim.W(&x.f, pos)) = v
+//	m[k]           ->  zzverifsim.MR(m, pos)[k]           m: Go map
+//	m[k] = v       ->  zzverifsim.MW(m, pos)[k] = v
+//	delete(m, k)   ->  delete(zzverifsim.MW(m, pos), k)
+//	len(m)         ->  len(zzverifsim.MR(m, pos))
+//	atomic.F(&x.f) ->  atomic.F(zzverifsim.AtomicPtr(&x.f))
+func (fc *fileCtx) raceInstrument() {
+	// spans replaced by the other rewrites: nothing may be inserted inside them
+	type span struct{ a, b int }
+
+	var replaced []span
+
+	for _, e := range fc.edits {
+		if e.end > e.start {
+			replaced = append(replaced, span{e.start, e.end})
+		}
+	}
+
+	inside := func(n ast.Node) bool {
+		a, b := fc.off(n.Pos()), fc.off(n.End())
+		for _, s := range replaced {
+			if a < s.b && s.a < b {
+				return true
+			}
+		}
+
+		return false
+	}
+
+	// enclosing function of every node (for stable race signatures)
+	encl := map[ast.Node]string{}
+
+	for _, d := range fc.file.Decls {
+		fd, ok := d.(*ast.FuncDecl)
+		if !ok {
+			continue
+		}
+
+		name := fd.Name.Name
+
+		if fd.Recv != nil && len(fd.Recv.List) == 1 {
+			t := fd.Recv.List[0].Type
+			if st, ok := t.(*ast.StarExpr); ok {
+				t = st.X
+			}
+
+			if ix, ok := t.(*ast.IndexExpr); ok {
+				t = ix.X
+			}
+
+			if id, ok := t.(*ast.Ident); ok {
+				name = id.Name + "." + name
+			}
+		}
+
+		ast.Inspect(fd, func(n ast.Node) bool {
+			if n != nil {
+				encl[n] = name
+			}
+
+			return true
+		})
+	}
+
+	lbl := func(n ast.Node, what string) string {
+		return fmt.Sprintf("%q", fc.label(n.Pos())+"|"+encl[n]+":"+what)
+	}
+
+	writes := map[ast.Expr]bool{}
+	addrOf := map[ast.Expr]bool{}
+	atomics := map[ast.Expr]bool{}
+
+	unparen := func(e ast.Expr) ast.Expr {
+		for {
+			p, ok := e.(*ast.ParenExpr)
+			if !ok {
+				return e
+			}
+
+			e = p.X
+		}
+	}
+
+	ast.Inspect(fc.file, func(n ast.Node) bool {
+		switch v := n.(type) {
+		case *ast.AssignStmt:
+			if v.Tok != token.DEFINE {
+				for _, l := range v.Lhs {
+					writes[unparen(l)] = true
+				}
+			}
+		case *ast.IncDecStmt:
+			writes[unparen(v.X)] = true
+		case *ast.UnaryExpr:
+			if v.Op == token.AND {
+				addrOf[unparen(v.X)] = true
+			}
+		case *ast.CallExpr:
+			if sel, ok := v.Fun.(*ast.SelectorExpr); ok {
+				if id, ok := sel.X.(*ast.Ident); ok {
+					if pn, ok := info.Uses[id].(*types.PkgName); ok && pn.Imported().Path() == "sync/atomic" && len(v.Args) > 0 {
+						atomics[v.Args[0]] = true
+					}
+				}
+			}
+
+			if id, ok := v.Fun.(*ast.Ident); ok && len(v.Args) >= 1 {
+				if _, isBuiltin := info.Uses[id].(*types.Builtin); isBuiltin {
+					if _, isMap := typeOf(v.Args[0]).(*types.Map); isMap && !inside(v.Args[0]) {
+						switch id.Name {
+						case "delete":
+							fc.wrap(v.Args[0], 1, "zzverifsim.MW(", ", "+lbl(v, "map-delete")+")")
+							stats["race.mapwrite"]++
+						case "len":
+							fc.wrap(v.Args[0], 1, "zzverifsim.MR(", ", "+lbl(v, "map-len")+")")
+							stats["race.mapread"]++
+						}
+					}
+				}
+			}
+		}
+
+		return true
+	})
+
+	ast.Inspect(fc.file, func(n ast.Node) bool {
+		switch v := n.(type) {
+		case *ast.FuncDecl:
+			// constructors run before the instance is shared
+			return true
+		case *ast.SelectorExpr:
+			s := info.Selections[v]
+			if s == nil || s.Kind() != types.FieldVal || inside(v) {
+				return true
+			}
+
+			if !ptrToCacheStruct(typeOf(v.X)) {
+				return true
+			}
+
+			if addrOf[v] {
+				return true // &x.f computes an address, it does not access the field
+			}
+
+			fn := "R"
+			if writes[v] {
+				fn = "W"
+			}
+
+			fc.wrap(v, 0, "(*zzverifsim."+fn+"(&", ", "+lbl(v, v.Sel.Name)+"))")
+			stats["race.field"+fn]++
+		case *ast.IndexExpr:
+			if _, isMap := typeOf(v.X).(*types.Map); !isMap || inside(v.X) {
+				return true
+			}
+
+			if writes[v] {
+				fc.wrap(v.X, 1, "zzverifsim.MW(", ", "+lbl(v, "map-store")+")")
+				stats["race.mapwrite"]++
+			} else {
+				fc.wrap(v.X, 1, "zzverifsim.MR(", ", "+lbl(v, "map-index")+")")
+				stats["race.mapread"]++
+			}
+		}
+
+		return true
+	})
+
+	for a := range atomics {
+		if inside(a) {
+			continue
+		}
+
+		fc.wrap(a, 2, "zzverifsim.AtomicPtr(", ")")
+		stats["race.atomic"]++
+	}
+}
+
+func typeOf(e ast.Expr) types.Type {
+	t := info.TypeOf(e)
+	if t == nil {
+		return types.Typ[types.Invalid]
+	}
+
+	return t.Underlying()
+}
+
+func ptrToCacheStruct(t types.Type) bool {
+	p, ok := t.(*types.Pointer)
+	if !ok {
+		return false
+	}
+
+	n, ok := p.Elem().(*types.Named)
+	if !ok {
+		return false
+	}
+
+	if _, ok := n.Underlying().(*types.Struct); !ok {
+		return false
+	}
+
+	return n.Obj().Pkg() != nil && n.Obj().Pkg().Path() == "github.com/bool64/cache"
+}
+
+// wrap inserts text before and after an expression. Nested wraps compose: an outer
+// expression's prefix comes before an inner one's at the same offset, suffixes the other way
+// round; priorities are derived from the expression's extent.
+func (fc *fileCtx) wrap(e ast.Expr, level int, before, after string) {
+	size := (fc.off(e.End())-fc.off(e.Pos()))*4 + level
+	// prefix: larger / outer expression first; suffix: smaller / inner expression first
+	fc.edits = append(fc.edits, edit{start: fc.off(e.Pos()), end: fc.off(e.Pos()), text: before, prio: -size})
+	fc.edits = append(fc.edits, edit{start: fc.off(e.End()), end: fc.off(e.End()), text: after, prio: -10000000 + size})
+}
